@@ -37,6 +37,18 @@ w('%d keys are listed as fixed (by %d commits; `fixes/APPLIED.md` lists all %s r
       nfix, len(commits),
       subprocess.run(['git', '-C', '/repo', 'rev-list', '--count', '4c62642..HEAD'], capture_output=True).stdout.decode().strip(),
       nkn))
+rf = os.path.join(V, 'notes', 'revert_fixes.json')
+if os.path.exists(rf):
+    rr = json.load(open(rf))
+    clean = [r for r in rr if 'checks' in r]
+    back = [r for r in clean if r['verdict'] == 'violation returns under the listed key']
+    other = [r for r in clean if r['verdict'] != 'violation returns under the listed key']
+    w('\nThat a `fixed` entry suppresses nothing is checked mechanically by `tools/revert_fixes.py`: each repair commit is '
+      'reverted alone in a scratch worktree of HEAD and the quick check of every property that lists a `fixed` key for it is '
+      'run against that tree.  Of the %d repair commits %d revert cleanly on their own (the others are built upon by later '
+      'repairs); for %d of those the violation comes back with a concrete failing input under the listed key%s  '
+      '(`notes/revert_fixes.json`).\n' % (len(rr), len(clean), len(back),
+        '.' if not other else '; not so for: ' + ', '.join('%s (%s)' % (r['commit'], r['verdict']) for r in other) + '.'))
 w('\n**Known finding (recorded, not repaired).**\n')
 for e in kf:
     if e['status'] == 'known':
